@@ -54,7 +54,10 @@ RULE = (
     'ATT_MTU 23..247 by a real Exchange MTU, EATT MTU 64..256; secret length 8..40). programs: Hypothesis '
     'draws a world and 4..30 cells from the same domain, a quarter of them as pairs in flight on both '
     'bearers at once. non-trivial = the rule refuses the access, or grants it while a requirement bit of '
-    'that direction is set; distinct by (kind, mask, security, path, bearer).'
+    'that direction is set; distinct by (kind, mask, security, path, bearer). downgrade histories (plain loops): for '
+    'characteristic values and descriptors x 3 requirement masks per direction x bearer x every ordered pair of paths '
+    'of one direction: the first access on an encrypted+authenticated link (granted), the second on the same '
+    'attribute and bearer after the link security went down (refused).'
 )
 ASSUMPTIONS = [
     'link security is set on the documented attributes Connection.encryption / Connection.authenticated '
@@ -984,6 +987,34 @@ def report(ctx, sig, what, params, cell, steps, confirm) -> None:
              {'kind': 'program', 'world': _non_default(params), 'cells': steps[: k + 1]})
 
 
+def downgrade_programs(ctx):
+    """Directed histories: an access that the rule GRANTS on a link that meets the requirement, followed by an access
+    to the same attribute on the same bearer after the link security went down (what a reconnection, or an
+    encryption change, leaves behind) that the rule REFUSES - for every ordered pair of paths of the same
+    direction. Anything the server remembers from the granted access (values, decisions) must not open the refused one.
+    Enumerated with plain loops; a third of it (rotated by the seed) in the quick tier."""
+    masks = {
+        'read': (READABLE | R_ENC, READABLE | R_AUTHN, READABLE | WRITEABLE | R_ENC | R_AUTHN),
+        'write': (WRITEABLE | W_ENC, WRITEABLE | W_AUTHN, READABLE | WRITEABLE | W_ENC | W_AUTHN),
+    }
+    i = 0
+    for kind in ('char', 'desc'):
+        paths = {'read': [q for q in PATHS[kind] if q not in WRITE_PATHS], 'write': list(WRITE_PATHS)}
+        for direction in ('read', 'write'):
+            for mask in masks[direction]:
+                for bearer in BEARERS:
+                    for first in paths[direction]:
+                        steps = []
+                        for second in paths[direction]:
+                            steps.append([kind, mask, 2, first, bearer])   # granted (encrypted + authenticated)
+                            low = 1 if mask & (R_AUTHN | W_AUTHN) and not mask & (R_ENC | W_ENC) else 0
+                            steps.append([kind, mask, low, second, bearer])  # refused after the downgrade
+                        i += 1
+                        if (i % 3 != ctx.seed % 3) if ctx.quick else (i % ctx.nshards != ctx.shard):
+                            continue
+                        yield steps
+
+
 # ---------------------------------------------------------------------------
 def run(ctx) -> None:
     vloop.selftest()
@@ -1015,6 +1046,24 @@ def run(ctx) -> None:
 
     ctx.hyp('programs', lambda d: run_program(ctx, d[0], d[1]), program_strategy(), max_examples=ctx.n(500, 48000))
 
+    # security-downgrade histories (granted access, then the same attribute on a link that no longer qualifies)
+    todo = list(downgrade_programs(ctx))
+    ctx.extra['sum_downgrade_programs'] = len(todo)
+
+    def one_downgrade_world(params, todo=todo):
+        if todo:
+            ctx.label('downgrade_history')
+            # two worlds in three have secrets longer than ATT_MTU-1, so that the granted plain reads are long reads
+            k = len(todo) % 3
+            if k:
+                params = dict(params, slen=40, mtu=(23, 30)[k - 1])
+            run_program(ctx, params, todo.pop(0))
+
+    ctx.hyp('downgrade_worlds', one_downgrade_world, world_strategy(), max_examples=len(todo))
+    while todo:
+        ctx.label('downgrade_history')
+        run_program(ctx, DEFAULT_WORLD, todo.pop(0))
+
     for path in ALL_PATHS:
         ctx.floor(f'path:{path}', 20)
     for s in SEC:
@@ -1030,6 +1079,7 @@ def run(ctx) -> None:
     ctx.floor('model:granted_with_requirement', 50)
     ctx.floor('model:granted_plain', 5)
     ctx.floor('pair_in_flight', 5)
+    ctx.floor('downgrade_history', 20)
     for v in ('static', 'dyn', 'dyn_async', 'v2'):
         ctx.floor(f'vkind:{v}', 5)
 
